@@ -25,6 +25,9 @@ theorem pathChoice_setPath {p : Bytes} {u : Url} (hp : ∃ q, p = 47 :: q) (h : 
       · simp [hs, he]
     · simp [pathChoice, he]
 
+theorem getScheme_slash (r : Bytes) : getScheme true [] (47 :: r) = some none := by
+  simp [getScheme, isLetter]
+
 /-- for an origin-form request target, what `url.ParseRequestURI` stores and `RouteHTTP` picks
     (RawPath, else EscapedPath) is the target's path text, byte for byte -/
 theorem pathChoice_parseRequestURI {raw : Bytes} {u : Url} (hs : ∃ r, raw = 47 :: r)
@@ -32,9 +35,30 @@ theorem pathChoice_parseRequestURI {raw : Bytes} {u : Url} (hs : ∃ r, raw = 47
   obtain ⟨r, rfl⟩ := hs
   unfold parseRequestURI at h
   have h42 : (47 :: r : Bytes) ≠ [42] := by intro e; cases e
-  simp only [h42, ↓reduceIte, Option.some.injEq] at h
+  have hne : (47 :: r : Bytes) ≠ [] := by intro e; cases e
   split at h
   · cases h
-  · exact pathChoice_setPath ⟨beforeQuery r, beforeQuery_slash r⟩ h
+  · simp only [hne, h42, ↓reduceIte, getScheme_slash, Option.some.injEq] at h
+    exact pathChoice_setPath ⟨beforeQuery r, beforeQuery_slash r⟩ h
+
+/-- for an absolute-form request target `scheme://authority/path?query` the same holds for its path part -/
+theorem pathChoice_parseRequestURI_abs {raw sch rest a q : Bytes} {u : Url}
+    (hsch : getScheme true [] raw = some (some (sch, rest))) (hr : beforeQuery rest = 47 :: 47 :: a)
+    (hq : a.dropWhile (· != 47) = 47 :: q) (h : parseRequestURI raw = some (some u)) :
+    pathChoice u = 47 :: q := by
+  unfold parseRequestURI at h
+  split at h
+  · cases h
+  · split at h
+    · cases h
+    · split at h
+      · rename_i h42
+        rw [h42] at hsch
+        simp [getScheme, isLetter] at hsch
+      · simp only [hsch, hr] at h
+        split at h
+        · simp only [Option.some.injEq, hq] at h
+          exact pathChoice_setPath ⟨q, rfl⟩ h
+        · cases h
 
 end GB.C03
